@@ -234,6 +234,16 @@ def gen_C03(tier, seed):
                     lines += [f"{pre}v({s}) size", f"{pre}v({s}) dumppos", f"{pre}w({s}) dumppos"]
                 lines += [f"@v({s}) dump", f"@w({s}) dump"]
             b.case("u32", lines)
+        # coordinates whose product with the stride wraps around 2^64 (all invalid: must panic, on every receiver kind)
+        lines = [root]
+        for wv in wrap_values(C) + [U64, 2**63]:
+            for s in [f"0,{wv},{min(C, 1)},{wv}", f"0,0,{min(C, 1)},{wv}", f"{wv},0,{wv},{min(R, 1)}", f"0,{wv},{min(C, 1)},{min(wv + 1, U64)}"]:
+                if any(int(x) > U64 for x in s.split(",")):
+                    continue
+                lines += [f"@v({s}) size", f"@w({s}) size", f"@xv({s}) size"]
+                if C >= 2 and R >= 2:
+                    lines += [f"@v(1,0,{C},{R})v({s}) size", f"@v(1,0,{C},{R})w({s}) size", f"@w(0,0,{C - 1},{R})w({s}) size"]
+        b.case("u32", lines)
         # nested: every valid outer window x all inner windows (incl. one-off invalid), three receiver kinds
         outers = [w for w in valid_windows(C, R)]
         fixed = []
@@ -295,9 +305,25 @@ def gen_C06(tier, seed):
                     for L in range(C + 2) if C else range(0, 4):
                         items = uniq(L, k); k += 7
                         b.case(elem, pre + [f"@ insert_row {i} {L} {fl(items)}", "@ dump", "@ lens", "@ capacity"])
+                if not reserve:
+                    # indices far out of range, incl. ones whose product with the line length wraps around 2^64
+                    for wv in [U64] + wrap_values(C) + wrap_values(R):
+                        b.case(elem, pre + [f"@ insert_row {wv} {C} {fl(uniq(C, k))}", "@ dump", f"@ insert_col {wv} {R} {fl(uniq(R, k + 3))}", "@ dump"]); k += 7
                 for L in sorted(set([C, C + 1, 0])):
                     items = uniq(L, k); k += 7
                     b.case(elem, pre + [f"@ push_row {L} {fl(items)}", "@ dump", f"@ push_row {L} {fl(uniq(L, k + 50))}", "@ dump"])
+                # "any other length": an iterator that claims the right length but yields one item fewer / more (the call must
+                # panic or succeed, and leave a valid array either way)
+                Lr = C if R else 2
+                for real in sorted(set([max(Lr - 1, 0), Lr + 1])):
+                    for i in sorted(set([0, R])):
+                        b.case(elem, pre + [f"@ insert_row {i} {Lr} {fl(uniq(real, k))}", "@ dump", "@ lens"]); k += 7
+                    b.case(elem, pre + [f"@ push_row {Lr} {fl(uniq(real, k))}", "@ dump", "@ lens"]); k += 7
+                Lc = R if C else 2
+                for real in sorted(set([max(Lc - 1, 0), Lc + 1])):
+                    for i in sorted(set([0, C])):
+                        b.case(elem, pre + [f"@ insert_col {i} {Lc} {fl(uniq(real, k))}", "@ dump", "@ lens"]); k += 7
+                    b.case(elem, pre + [f"@ push_col {Lc} {fl(uniq(real, k))}", "@ dump", "@ lens"]); k += 7
                 # cols
                 for i in range(C + 2):
                     for L in range(R + 2) if R else range(0, 4):
@@ -364,7 +390,8 @@ def gen_C07(tier, seed):
                         words += [["l", f"N{k}", "l", "n", "b"], ["b", f"B{k}", "l", "n"], [f"N{k}", f"B{k}", "l"]]
                     for w in sample(rng, words, 14 if tier == "quick" else 80):
                         b.case(elem, [root, f"@ remove_{kind} {i} {','.join(w) if w else '-'} drop", "@ dump", "@ lens"])
-                b.case(elem, [root, f"@ remove_{kind} {dim + 1} - drop", f"@ remove_{kind} {U64} n drop", "@ dump"])
+                b.case(elem, [root, f"@ remove_{kind} {dim + 1} - drop", f"@ remove_{kind} {U64} n drop", "@ dump"] +
+                       [x for wv in wrap_values(C) + wrap_values(R) for x in (f"@ remove_{kind} {wv} n drop", "@ dump")])
             # pop until empty and beyond
             lines = [root]
             for _ in range(R + 2):
@@ -504,8 +531,22 @@ def recv_dims(C, R, rv):
     return c, r
 
 
-def idx_values(dim):
-    return list(range(dim + 2)) + [U64]
+def wrap_values(stride):
+    """a few index values whose product with `stride` wraps around 2^64 to something small"""
+    if stride <= 1:
+        return [2**63, U64]
+    q = (2**64 + stride - 1) // stride
+    return sorted(set(v for v in [q, q + 1, (2 * 2**64 + stride - 1) // stride] + ([2**63] if stride % 2 == 0 else []) if v <= U64))
+
+
+def idx_values(dim, stride=0):
+    """indices in range, one and two past the end, usize::MAX; with a stride also values whose product with the stride wraps
+    around 2^64 to something small (an index check that relies on the multiplication would let them through in release)"""
+    vals = list(range(dim + 2)) + [U64]
+    if stride > 1:
+        q = (2**64 + stride - 1) // stride
+        vals += [q, q + 1, (2 * 2**64 + stride - 1) // stride, 2**63 if stride % 2 == 0 else q + 2]
+    return sorted(set(v for v in vals if 0 <= v <= U64))
 
 
 def gen_C13(tier, seed):
@@ -518,16 +559,20 @@ def gen_C13(tier, seed):
         for rv in mut_receivers(rng, C, R, 4 if tier == "quick" else 12):
             c, r = recv_dims(C, R, rv)
             lines = [root]
-            for r1 in idx_values(r):
-                for r2 in idx_values(r):
+            for r1 in idx_values(r, C):
+                for r2 in idx_values(r, C):
                     lines += [f"{rv} swap_rows {r1} {r2}", f"{rv} row_pair {r1} {r2}"]
             for c1 in idx_values(c):
                 for c2 in idx_values(c):
                     lines.append(f"{rv} swap_cols {c1} {c2}")
-            cells = [(x, y) for x in idx_values(c) for y in idx_values(r)]
+            cells = [(x, y) for x in idx_values(c) for y in idx_values(r, C)]
             for _ in range(30 if tier == "quick" else 120):
                 a, bb = rng.choice(cells), rng.choice(cells)
                 lines.append(f"{rv} swap {a[0]} {a[1]} {bb[0]} {bb[1]}")
+            # one valid cell against every row index whose product with the stride wraps (and the other way round)
+            for y in idx_values(r, C):
+                if y > r + 1:
+                    lines += [f"{rv} swap 0 0 0 {y}", f"{rv} swap {max(c - 1, 0)} {y} 0 0", f"{rv} swap 0 {y} 0 {y}"]
             b.case("u32", lines)
             b.case("cell", [root, f"{rv} fill 7", "@ dump", f"{rv} swap_rows 0 {max(0, r - 1)}", f"{rv} swap_cols 0 {max(0, c - 1)}",
                             f"{rv} swap 0 0 {max(0, c - 1)} {max(0, r - 1)}", f"{rv} fill 9"])
@@ -568,7 +613,7 @@ def gen_C14(tier, seed):
                 b.case(elem, lines)
             # copy_within: all source rectangles x all destination corners (valid + one-off invalid + huge)
             rects = [(c0, r0, c1, r1) for c0 in range(c + 2) for c1 in range(c + 2) for r0 in range(r + 2) for r1 in range(r + 2)]
-            dests = [(x, y) for x in list(range(c + 2)) + [U64] for y in list(range(r + 2)) + [U64]]
+            dests = [(x, y) for x in list(range(c + 2)) + [U64] for y in list(range(r + 2)) + [U64] + wrap_values(C)[:2]]
             combos = [(q, dd) for q in rects for dd in dests]
             def fits(q, dd):
                 return q[0] <= q[2] <= c and q[1] <= q[3] <= r and dd[0] + (q[2] - q[0]) <= c and dd[1] + (q[3] - q[1]) <= r
@@ -650,7 +695,7 @@ def gen_sort(pid, tier, seed, ops, by_row):
                 lines = []
                 dim = r if by_row else c
                 for op in ops:
-                    for k in list(range(dim + 2)) + [U64]:
+                    for k in list(range(dim + 2)) + [U64] + wrap_values(C):
                         lines += [root, f"{rv} {op} {k}"]
                 b.case(rng.choice(["u32", "cell"]), lines)
     # wide arrays so that an unstable sort really reorders ties and insertion-sort thresholds are crossed
@@ -1129,14 +1174,14 @@ RULES = {
     "C03": "all parents <= 3x3 (4x4) x all (start,end) in {0..dim+1}^4 x 3 receiver kinds, nested to depth 3 (sampled), slice-built roots, writes through the innermost mutable view" + NT,
     "C04": "all parents <= 4x4 (5x5), sampled windows incl. nested, 27 mutating operations with valid and out-of-range arguments, and mutable iteration (rows_mut / cells_mut / col_mut) along sampled (all, thorough) two-step words over n,b,N0,N1,B0,B1 then collect from either end, each from a fresh root; the whole parent is compared" + NT,
     "C05": "random histories on ledgered cells and zero-sized elements; every conversion (into_vec/box/iter k, clone, to_owned, constructors replacing an array) on all shapes <=3x3; drop list, live count and double-drop counter compared after every step and at the final drop" + NT,
-    "C06": "all shapes <= 4x4 (5x5) x index 0..dim+1 x length 0..dim+1 x {u32,cell,zst} x {exact, reserved, shrunk} capacity; push twice; random build-up histories from the empty array" + NT,
+    "C06": "all shapes <= 4x4 (5x5) x index 0..dim+1 x length 0..dim+1 x {u32,cell,zst} x {exact, reserved, shrunk} capacity; push twice; iterators that claim the right length but yield one item fewer / more; random build-up histories from the empty array" + NT,
     "C07": "all shapes <= 4x4 (5x5) x every index x (front,back) consumption splits with len() in between + random words over n,b,l x {u32,cell,zst}; out-of-range and huge indices; pop until empty and beyond" + NT,
     "C08": "all shapes <= 3x3 (4x4) x receivers (root, ext, sampled views, nested, slice-built) x rows/rows_mut x (sampled exhaustive words to depth 3 over n,b,l,N0,N1,B0,B1 + random words of length <=9 with arguments 2^32, 2^63, 2^64-1, ceil(2^64/stride)+-1 and a consuming last step)" + NT,
     "C09": "as C08 for col/col_mut with every column index 0..C (out of range included) and index steps",
     "C10": "as C08 for cells/cells_mut/iter_ref/iter_mut",
     "C11": "all shapes <= 3x3 (4x4): insert_row/insert_col with the iterator panicking at every position and with claimed lengths real-1, real+1, 0, 2^63, 2^64-1 x {cell,zst,u32}; k-th Clone/Drop/Default/comparator/key call panicking for k in {0,1,n-1,n,n+1} in 25 operations; each followed by read, push, pop, final drop" + NT,
     "C12": "all shapes <= 4x4 (5x5) x both drains x every index x every (front,back) consumption split, leaked, then read / push / pop / drop x {cell,u32,zst}; repeated leaked pops; borrow-only values created and dropped" + NT,
-    "C13": "all shapes <= 4x4 (5x5) x receivers (root, ext, full-height narrow views, sampled and nested views, slice-built) x all (r1,r2), (c1,c2) in {0..dim+1, 2^64-1}^2 for swap_rows/row_pair/swap_cols, sampled swap pairs, fill on u32 and cell" + NT,
+    "C13": "all shapes <= 4x4 (5x5) x receivers (root, ext, full-height narrow views, sampled and nested views, slice-built) x all (r1,r2), (c1,c2) in {0..dim+1, 2^64-1, row indices whose product with the stride wraps around 2^64}^2 for swap_rows/row_pair/swap_cols and for swap against a valid cell, sampled swap pairs, fill on u32 and cell" + NT,
     "C14": "all shapes <= 3x3 (4x4) x receivers x source lengths n-1..n+1 / source shapes (same, transposed, +1) / strided source views; copy_within: sampled (all in thorough) source rectangles x destination corners incl. one-off invalid and 2^64-1" + NT,
     "C15": "all shapes <= 5x5 (8x8) x all mids 0..dim+1 and 2^64-1 on root, ext and views; arrays with 6..12 (16) rows x 1,3,4 columns x every row mid (every gcd pattern); flips" + NT,
     "C16": "all shapes <= 4x4 (5x5) x 6 row variants x every row index 0..dim+1 and 2^64-1 x root/ext/views, keys drawn from a 3-letter alphabet with distinct cells (all tie patterns over the repetitions); wide arrays 40-70 (24-260) columns x 2 rows with a 2-letter alphabet" + NT,
